@@ -162,9 +162,10 @@ def first_sig(diffs) -> str:
     return '+'.join(sorted(sig)[:8]) or 'engine-diff-only'
 
 
-def compare_with_target(eng: Engine, got, sdl_b, full: bool = True) -> list[str]:
+def compare_full(eng: Engine, got, sdl_b, full: bool = True):
     """oracle S: `got` equals the independently loaded target.  `full`: also ask the engine's own
-    delta_schemas both ways (upstream's criterion); the structural dump is always compared."""
+    delta_schemas both ways (upstream's criterion); the structural dump is always compared.
+    -> (difference lines, dump of `got`)"""
     sc = eng.sc
     b, dump_b, _ = eng.load(sdl_b)
     out = []
@@ -174,18 +175,61 @@ def compare_with_target(eng: Engine, got, sdl_b, full: bool = True) -> list[str]
         d2 = sc.schema_diff(b, got)
         if d1 or d2:
             out += [f'delta_schemas(result, target) = {d1[:6]}', f'delta_schemas(target, result) = {d2[:6]}']
-    out += sc.dump_diff(sc.dump(got), dump_b)
+    dg = sc.dump(got)
+    out += sc.dump_diff(dg, dump_b)
     eng.t['dump'] += time.time() - t
-    return out
+    return out, dg
+
+
+def compare_with_target(eng: Engine, got, sdl_b, full: bool = True) -> list[str]:
+    return compare_full(eng, got, sdl_b, full)[0]
+
+
+def report(ctx: core.Ctx, eng: Engine, route: str, what: str, detail: dict, key_in: str, *, a, dump_a, sdl_b, got,
+           dump_got, script, lines, fixed_key=None) -> list:
+    """report a level-2 failure.  A corpus witness keeps its fixed key.  Otherwise the failure is attributed
+    to known engine defects only if props/c02_classify CONFIRMS their root cause on this input and every
+    differing object is explained (`l2-<route>:known:<cause>:<hash>`, one record per cause); anything else is
+    `l2-<route>:unclassified:<signature>:<hash>`."""
+    from props import c02_classify as cl
+    b, dump_b, _ = eng.load(sdl_b)
+    causes = cl.classify(eng.sc, a, b, got, script, dump_a if dump_a is not None else eng.sc.dump(a),
+                         dump_b, dump_got) if dump_got is not None else None
+    detail = detail | {'differences': [x[:400] for x in lines[:25]], 'root_causes_confirmed': causes}
+    if cl.LAST_ERROR[0]:
+        detail['classifier_error'] = cl.LAST_ERROR[0]
+    if fixed_key:
+        ctx.fail(fixed_key, what, detail)
+    elif causes:
+        for c in causes:
+            ctx.fail(f'l2-{route}:known:{c}:{key_in}', f'{what} [root cause confirmed by predicate: {c}]', detail)
+    else:
+        ctx.fail(f'l2-{route}:unclassified:{first_sig(lines)}:{key_in}', what, detail)
+    return causes or []
+
+
+def report_text_error(ctx: core.Ctx, route: str, what: str, detail: dict, key_in: str, script: str, err, fixed_key=None):
+    from props import c02_classify as cl
+    causes = cl.classify_text_error(script, err)
+    detail = detail | {'ddl': script, 'error': f'{type(err).__name__}: {err}'[:400], 'root_causes_confirmed': causes}
+    if fixed_key:
+        ctx.fail(fixed_key, what, detail)
+    elif causes:
+        for c in causes:
+            ctx.fail(f'l2-{route}:known:{c}:{key_in}', f'{what} [root cause confirmed by predicate: {c}]', detail)
+    else:
+        ctx.fail(f'l2-{route}:unclassified:{err_class(err)}:{key_in}', what, detail)
+    return causes or []
 
 
 def check_pair(ctx: core.Ctx, eng: Engine, sdl_a: str, sdl_b: str, tags, *, extra_text_route: bool, stream: str,
-               fixed_key: str | None = None) -> dict:
-    """one (A, B) pair through all routes; returns a record for coverage.  `fixed_key`: report any
-    failure of this pair under that key (corpus of minimal reproducers of known engine defects)."""
+               fixed_key: str | None = None, all_routes: bool = False) -> dict:
+    """one (A, B) pair through all routes (direct apply of the computed migration, stored script as TEXT,
+    optionally ddl_text_from_delta as TEXT), each compared with B; returns a record for coverage.
+    `fixed_key`: report any failure of this pair under that key (corpus witnesses of known engine defects)."""
     sc = eng.sc
-    rec = {'outcome': None, 'tags': tags}
-    a, _, ea = eng.load(sdl_a)
+    rec = {'outcome': None, 'tags': tags, 'causes': []}
+    a, dump_a, ea = eng.load(sdl_a)
     b, _, eb = eng.load(sdl_b)
     if ea is not None or eb is not None:
         rec['outcome'] = 'load-rejected:' + err_class(ea or eb)
@@ -198,51 +242,229 @@ def check_pair(ctx: core.Ctx, eng: Engine, sdl_a: str, sdl_b: str, tags, *, extr
         return rec
     detail = {'sdlA': sdl_a, 'sdlB': sdl_b, 'mutations': tags, 'stream': stream}
     key_in = h8(sdl_a, sdl_b)
-    diffs = compare_with_target(eng, r, sdl_b)
+    script = sc.migration_script(r)
+    common = dict(a=a, dump_a=dump_a, sdl_b=sdl_b, fixed_key=fixed_key)
+    diffs, dg = compare_full(eng, r, sdl_b)
     if diffs:
-        ctx.fail(fixed_key or f'l2-pair:{first_sig(diffs)}:{key_in}',
-                 'accepted migration A -> B does not produce B', detail | {'differences': diffs[:25]})
+        rec['causes'] = report(ctx, eng, 'pair', 'accepted migration A -> B does not produce B', detail | {'ddl': script},
+                               key_in, got=r, dump_got=dg, script=script, lines=diffs, **common)
         rec['outcome'] = 'FAIL-result'
-        return rec
+        if not all_routes:
+            return rec
     # replay as text: the script stored in the Migration object
     t = time.time()
-    script = sc.migration_script(r)
     try:
         r2 = sc.replay_text(a, script)
-        diffs = compare_with_target(eng, r2, sdl_b, full=False)
+        diffs, dg = compare_full(eng, r2, sdl_b, full=False)
         if diffs:
-            ctx.fail(fixed_key or f'l2-text:{first_sig(diffs)}:{key_in}',
-                     'replaying the migration DDL as text does not produce B',
-                     detail | {'ddl': script, 'differences': diffs[:25]})
-            rec['outcome'] = 'FAIL-text'
+            rec['causes'] += report(ctx, eng, 'text', 'replaying the migration DDL as text does not produce B',
+                                   detail | {'ddl': script}, key_in, got=r2, dump_got=dg, script=script, lines=diffs,
+                                   **common)
+            rec['outcome'] = rec['outcome'] or 'FAIL-text'
     except Exception as e:
-        ctx.fail(fixed_key or f'l2-text:{err_class(e)}:{key_in}',
-                 'the migration was accepted but its DDL text is rejected on replay',
-                 detail | {'ddl': script, 'error': f'{type(e).__name__}: {e}'[:400]})
-        rec['outcome'] = 'FAIL-text-rejected'
-    if extra_text_route and rec['outcome'] is None:
+        rec['causes'] += report_text_error(ctx, 'text', 'the migration was accepted but its DDL text is rejected on replay',
+                                          detail, key_in, script, e, fixed_key)
+        rec['outcome'] = rec['outcome'] or 'FAIL-text-rejected'
+    if extra_text_route and (rec['outcome'] is None or all_routes):
         # second text route: delta_schemas(a, target) -> ddl_text_from_delta -> parse -> apply
         from edb.schema import ddl as s_ddl
+        text = ''
         try:
             delta = s_ddl.delta_schemas(a, b)
             text = s_ddl.ddl_text_from_delta(a, b, delta)
             r3 = sc.replay_text(a, text)
-            diffs = compare_with_target(eng, r3, sdl_b, full=False)
+            diffs, dg = compare_full(eng, r3, sdl_b, full=False)
             if diffs:
-                ctx.fail(fixed_key or f'l2-text2:{first_sig(diffs)}:{key_in}',
-                         'ddl_text_from_delta(delta_schemas(A, B)) replayed on A does not produce B',
-                         detail | {'ddl': text, 'differences': diffs[:25]})
-                rec['outcome'] = 'FAIL-text2'
+                rec['causes'] += report(ctx, eng, 'text2',
+                                       'ddl_text_from_delta(delta_schemas(A, B)) replayed on A does not produce B',
+                                       detail | {'ddl': text}, key_in, got=r3, dump_got=dg, script=text, lines=diffs,
+                                       **common)
+                rec['outcome'] = rec['outcome'] or 'FAIL-text2'
         except Exception as e:
-            ctx.fail(fixed_key or f'l2-text2:{err_class(e)}:{key_in}',
-                     'ddl_text_from_delta(delta_schemas(A, B)) is rejected although POPULATE/COMMIT accepted the same diff',
-                     detail | {'error': f'{type(e).__name__}: {e}'[:400]})
-            rec['outcome'] = 'FAIL-text2-rejected'
+            rec['causes'] += report_text_error(
+                ctx, 'text2', 'ddl_text_from_delta(delta_schemas(A, B)) is rejected although POPULATE/COMMIT accepted '
+                'the same diff', detail, key_in, text, e, fixed_key)
+            rec['outcome'] = rec['outcome'] or 'FAIL-text2-rejected'
     eng.t['replay'] += time.time() - t
     if rec['outcome'] is None:
         rec['outcome'] = 'ok'
         rec['n_stmts'] = script.count(';')
     return rec
+
+
+# --------------------------------------------------- rebase streams (bases)
+MIXINS = ['Ma', 'Mb', 'Mc', 'Md', 'Me', 'Mf', 'Mg', 'Mh']
+
+
+def _rebase_sdl(order, extra=''):
+    body = ' '.join(f'type {m};' for m in MIXINS)
+    ext = f' extending {", ".join(order)}' if order else ''
+    return f'module default {{ {body} type Target{ext} {{ property tag -> str; }}; type Sub extending Target; {extra} }}'
+
+
+def gen_rebase_case(rng):
+    """(old base list, new base list, tag): rebases of a type over plain mixin types.
+    multi:   >= 2 new bases inserted at DIFFERENT positions among the retained ones (several positional groups,
+             with or without a tail group)
+    dropadj: two or three ADJACENT bases dropped in one step      dropfar: non-adjacent bases dropped
+    mixed:   non-adjacent drops + positional inserts              reorder: retained bases permuted"""
+    mode = rng.choice(['multi', 'multi', 'multi', 'dropadj', 'dropfar', 'mixed', 'reorder'])
+    k = rng.randint(2, 4)
+    old = rng.sample(MIXINS, k)
+    fresh = [m for m in MIXINS if m not in old]
+    rng.shuffle(fresh)
+    if mode == 'multi':
+        new = list(old)
+        ngroups = rng.randint(2, min(3, len(old) + 1))
+        slots = sorted(rng.sample(range(len(old) + 1), ngroups), reverse=True)
+        for sl in slots:
+            grp = [fresh.pop() for _ in range(rng.choice([1, 1, 2])) if fresh]
+            new[sl:sl] = grp
+    elif mode == 'dropadj':
+        if len(old) < 3:
+            old = old + [fresh.pop()]
+        i = rng.randrange(len(old) - 1)
+        n = rng.choice([2, 2, 3])
+        new = old[:i] + old[i + n:]
+    elif mode == 'dropfar':
+        if len(old) < 3:
+            old = old + [fresh.pop()]
+        drop = set(old[::2][:2]) if rng.random() < 0.5 else {old[0], old[-1]}
+        new = [m for m in old if m not in drop] or [old[1]]
+    elif mode == 'mixed':
+        if len(old) < 4:
+            old = (old + fresh[:4])[:4]
+            fresh = [m for m in MIXINS if m not in old]
+        new = [old[1], old[3]]
+        new[1:1] = [fresh.pop()]
+        new[0:0] = [fresh.pop()]
+        if rng.random() < 0.5:
+            new.append(fresh.pop())
+    else:
+        new = list(old)
+        while new == old:
+            rng.shuffle(new)
+    return old, new, f'rebase:{mode}:{"".join(m[1] for m in old)}->{"".join(m[1] for m in new)}'
+
+
+def gen_rebase_ddl(rng):
+    """(old, DDL text, expected new order, tag): hand-written ALTER TYPE with a mix of DROP EXTENDING and
+    EXTENDING … FIRST | LAST | BEFORE x | AFTER x groups; the expected order follows the documented semantics
+    (props/c02_classify.apply_rebase with no defect switched on)."""
+    from props import c02_classify as cl
+    k = rng.randint(2, 4)
+    old = rng.sample(MIXINS, k)
+    fresh = [m for m in MIXINS if m not in old]
+    rng.shuffle(fresh)
+    removed = set()
+    if rng.random() < 0.35 and len(old) >= 3:
+        removed = {old[0], old[-1]} if rng.random() < 0.6 else set(old[1:3])
+    retained = [m for m in old if m not in removed]
+    added, present = [], list(retained)
+    use_after = rng.random() < 0.3
+    for _ in range(rng.randint(2, 3)):
+        if not fresh:
+            break
+        grp = [fresh.pop() for _ in range(rng.choice([1, 1, 2])) if fresh]
+        kind = rng.choice(['BEFORE', 'BEFORE', 'FIRST', 'LAST', 'AFTER' if use_after else 'BEFORE'])
+        if kind in ('BEFORE', 'AFTER'):
+            added.append((grp, (kind, rng.choice(present))))
+        else:
+            added.append((grp, kind))
+        present += grp
+    q = lambda m: f'default::{m}'                                         # noqa: E731
+    parts = []
+    if removed:
+        parts.append('DROP EXTENDING ' + ', '.join(q(m) for m in sorted(removed, key=old.index)) + ';')
+    for grp, pos in added:
+        ps = f'{pos[0]} {q(pos[1])}' if isinstance(pos, tuple) else pos
+        parts.append(f'EXTENDING {", ".join(q(m) for m in grp)} {ps};')
+    ddl = 'ALTER TYPE default::Target { ' + ' '.join(parts) + ' };'
+    T = lambda l: ['ObjectType default::' + m for m in l]                 # noqa: E731
+    addedT = [(T(g), (p[0], T([p[1]])[0]) if isinstance(p, tuple) else p) for g, p in added]
+    exp = cl.apply_rebase(T(old), set(T(removed)), addedT)
+    expected = [x.split('::')[1] for x in exp if x != cl.DEFAULT_BASE]
+    return old, ddl, expected, (set(T(removed)), addedT), f'rebase-ddl:{"".join(m[1] for m in old)}:{ddl[28:-3]}'
+
+
+def check_rebase_ddl(ctx: core.Ctx, eng: Engine, rng) -> dict:
+    old, ddl, expected, (removed, added), tag = gen_rebase_ddl(rng)
+    plan = {'old': old, 'expected': expected, 'removed': sorted(removed),
+            'added': [[g, list(p) if isinstance(p, tuple) else p] for g, p in added]}
+    return check_ddl_case(ctx, eng, ddl, plan, tag)
+
+
+def check_ddl_case(ctx: core.Ctx, eng: Engine, ddl: str, plan: dict, tag: str, fixed_key=None) -> dict:
+    """hand-written rebase DDL applied as TEXT, compared with the target that the documented semantics give"""
+    from props import c02_classify as cl
+    sc = eng.sc
+    old, expected = plan['old'], plan['expected']
+    removed = set(plan['removed'])
+    added = [(g, tuple(p) if isinstance(p, list) else p) for g, p in plan['added']]
+    sdl_a, sdl_b = _rebase_sdl(old), _rebase_sdl(expected)
+    rec = {'outcome': None, 'tags': [tag], 'causes': []}
+    a, dump_a, ea = eng.load(sdl_a)
+    b, dump_b, eb = eng.load(sdl_b)
+    if ea is not None or eb is not None:
+        rec['outcome'] = 'load-rejected:' + err_class(ea or eb)
+        return rec
+    try:
+        r = sc.replay_text(a, ddl)
+    except Exception as e:
+        rec['outcome'] = 'ddl-rejected:' + err_class(e)
+        return rec
+    diffs, dg = compare_full(eng, r, sdl_b)
+    if not diffs:
+        rec['outcome'] = 'ok'
+        return rec
+    key_in = h8(sdl_a, ddl)
+    detail = {'sdlA': sdl_a, 'ddl': ddl, 'sdlB': sdl_b, 'mutations': [tag], 'stream': 'rebase-ddl', 'plan': plan,
+              'differences': diffs[:25]}
+    # attribute to known defects of the rebase machinery only if they reproduce the result exactly and every
+    # difference lies in the subtree of the rebased type
+    key = 'ObjectType default::Target'
+    rb = dg.get(key, {}).get('bases', [None])[0]
+    causes = cl.explain_bases(['ObjectType default::' + m for m in old], removed, added, rb,
+                              flags=('skip_bug', 'noreinsert_bug', 'after_bug')) if rb else None
+    sd = cl.struct_diff(dg, dump_b)
+    inside = all(('default|Target' in k or 'default||Target' in k or 'default|Sub' in k or 'default||Sub' in k
+                  or k in (key, 'ObjectType default::Sub')) for k in sd)
+    detail['root_causes_confirmed'] = causes if (causes and inside) else None
+    if fixed_key:
+        ctx.fail(fixed_key, 'rebase DDL does not give the documented base order', detail)
+        rec['causes'] = causes if (causes and inside) else []
+    elif causes and inside:
+        for c in causes:
+            ctx.fail(f'l2-ddl:known:{c}:{key_in}', f'rebase DDL does not give the documented base order '
+                     f'[root cause confirmed by simulation: {c}]', detail)
+        rec['causes'] = causes
+    else:
+        ctx.fail(f'l2-ddl:unclassified:{first_sig(diffs)}:{key_in}',
+                 'rebase DDL (EXTENDING … FIRST/LAST/BEFORE/AFTER, DROP EXTENDING) does not give the documented base order',
+                 detail)
+    rec['outcome'] = 'FAIL-result'
+    return rec
+
+
+def run_rebase(ctx: core.Ctx, eng: Engine, n_sdl: int, n_ddl: int) -> dict:
+    rng = ctx.rng
+    out = {'sdl': {}, 'ddl': {}, 'modes': {}, 'known_causes': {}}
+    for _ in range(n_sdl):
+        old, new, tag = gen_rebase_case(rng)
+        rec = check_pair(ctx, eng, _rebase_sdl(old), _rebase_sdl(new), [tag], extra_text_route=True, stream='rebase',
+                         all_routes=True)
+        out['sdl'][rec['outcome']] = out['sdl'].get(rec['outcome'], 0) + 1
+        m = tag.split(':')[1]
+        out['modes'][m] = out['modes'].get(m, 0) + 1
+        for c in set(rec['causes']):
+            out['known_causes'][c] = out['known_causes'].get(c, 0) + 1
+    for _ in range(n_ddl):
+        rec = check_rebase_ddl(ctx, eng, rng)
+        out['ddl'][rec['outcome']] = out['ddl'].get(rec['outcome'], 0) + 1
+        for c in rec['causes']:
+            out['known_causes'][c] = out['known_causes'].get(c, 0) + 1
+    ctx.log('rebase streams:', out)
+    return out
 
 
 def gen_pair(rng, sc):
@@ -256,6 +478,12 @@ def gen_pair(rng, sc):
     if k < 0.20:
         return sc.gen_spec(rng, size), sc.gen_spec(rng, size), ['unrelated']
     a = sc.gen_spec(rng, size)
+    if k < 0.30:
+        # rebases inside rich schemas: multi-group inserts / adjacent drops, possibly followed by other mutations
+        b, tags = sc.mutate(rng, a, 1, kinds=['rebase_multi', 'drop_adjacent_bases'])
+        if tags:
+            b, t2 = sc.mutate(rng, b, rng.choice([0, 0, 1, 2]))
+            return a, b, list(tags) + list(t2)
     b, tags = sc.mutate(rng, a, rng.choice([1, 1, 2, 2, 3, 4]))
     return a, b, list(tags)
 
@@ -273,9 +501,12 @@ def run_corpus(ctx: core.Ctx, eng: Engine) -> dict:
     if not os.path.exists(path):
         return res
     for case in json.load(open(path))['cases']:
-        rec = check_pair(ctx, eng, case['sdlA'], case['sdlB'], case.get('mutations', []), extra_text_route=True,
-                         stream='corpus', fixed_key=case['key'])
-        res[case['key']] = rec['outcome']
+        if 'ddl' in case:
+            rec = check_ddl_case(ctx, eng, case['ddl'], case['plan'], 'corpus', fixed_key=case['key'])
+        else:
+            rec = check_pair(ctx, eng, case['sdlA'], case['sdlB'], case.get('mutations', []), extra_text_route=True,
+                             stream='corpus', fixed_key=case['key'])
+        res[case['key']] = rec['outcome'] + (' -> ' + ','.join(rec['causes']) if rec.get('causes') else '')
     ctx.log('corpus:', res)
     return res
 
@@ -290,7 +521,9 @@ def run_level2(ctx: core.Ctx, n_pairs: int) -> dict:
     feats: dict = {}
     distinct = set()
     samples = []
-    deadline = t0 + ctx.budget(115, 1500)     # wall-clock guard: the quick tier must stay within minutes
+    corpus = run_corpus(ctx, eng)
+    rebase = run_rebase(ctx, eng, ctx.budget(8, 300), ctx.budget(8, 300))
+    deadline = time.time() + ctx.budget(85, 1500)     # wall-clock guard: the quick tier must stay within minutes
     done = 0
     for i in range(n_pairs):
         if time.time() > deadline and done >= ctx.budget(15, 300):
@@ -311,12 +544,11 @@ def run_level2(ctx: core.Ctx, n_pairs: int) -> dict:
             if len(samples) < 3 and rec.get('n_stmts', 0) >= 2:
                 samples.append({'mutations': tags, 'sdlA': sa[:300], 'sdlB': sb[:300]})
     n_pairs = done
-    corpus = run_corpus(ctx, eng)
     ctx.log(f'level 2: {n_pairs} schema pairs in {time.time() - t0:.1f}s; outcomes {outcomes}; '
             f'engine time {dict((k, round(v, 1)) for k, v in eng.t.items())}')
     return {'n': n_pairs, 'outcomes': outcomes, 'mutations_in_accepted_pairs': tags_ok,
             'features_in_accepted_pairs': feats, 'distinct_nontrivial': len(distinct), 'samples': samples,
-            'corpus': corpus,
+            'corpus': corpus, 'rebase': rebase,
             'engine_seconds': {k: round(v, 1) for k, v in eng.t.items()}}
 
 
@@ -330,20 +562,25 @@ def run(ctx: core.Ctx):
 
     if ctx.replay:
         rp = json.load(open(ctx.replay))
-        l1_cases, l2_cases = [], []
+        l1_cases, l2_cases, ddl_cases = [], [], []
         for f in rp['failures']:
             d = f.get('detail')
             if isinstance(d, dict) and 'case' in d:
                 l1_cases.append(_unjson(d['case']))
+            elif isinstance(d, dict) and d.get('stream') == 'rebase-ddl':
+                ddl_cases.append((d['ddl'], d['plan'], (d.get('mutations') or ['rebase-ddl'])[0]))
             elif isinstance(d, dict) and 'sdlA' in d:
                 l2_cases.append((d['sdlA'], d['sdlB'], d.get('mutations', [])))
         r1 = run_level1(ctx, l1_cases) if l1_cases else {'n': 0, 'distinct_nontrivial': 0, 'samples': []}
         r2 = {'n': len(l2_cases), 'distinct_nontrivial': 0, 'samples': []}
-        if l2_cases:
+        if l2_cases or ddl_cases:
             eng = Engine()
             for sa, sb, tags in l2_cases:
                 rec = check_pair(ctx, eng, sa, sb, tags, extra_text_route=True, stream='replay')
-                ctx.log('replayed pair:', rec['outcome'])
+                ctx.log('replayed pair:', rec['outcome'], rec['causes'])
+            for ddl, plan, tag in ddl_cases:
+                rec = check_ddl_case(ctx, eng, ddl, plan, tag)
+                ctx.log('replayed rebase DDL:', rec['outcome'], rec['causes'])
     else:
         cases = [l1.gen_case(ctx.rng, nmax=ctx.rng.choice([3, 5, 5, 7])) for _ in range(ctx.budget(400, 20000))]
         r1 = run_level1(ctx, cases)
